@@ -366,7 +366,7 @@ def run(chk):
         uj = []
         for job, res in zip(jobs, results):
             if "umodel" in job:
-                ul.append("U %s 86 %s" % (which, job["umodel"].hex()))
+                ul.append("U %s 79,86 %s" % (which, job["umodel"].hex()))
                 uj.append((job, res))
         um = common.batch(oracle, ul) if (oracle and ul) else []
         for (job, (rc, err, okline, files)), m in zip(uj, um):
